@@ -1,6 +1,7 @@
 // C20 - the core synchronisation primitives never allocate
 #include "common.h"
 #include "values.h"
+#include <cocls/self.h>
 
 namespace c20 {
 
@@ -29,7 +30,7 @@ struct Op { uint8_t code, a, b; };
 struct Prog { std::vector<Op> ops; };
 inline Prog decode(hz::Reader &r) { Prog p; unsigned n = 0; while (r.more() && n < 40) { Op o; o.code = (uint8_t)r.mod(13); o.a = r.u8(); o.b = r.u8(); p.ops.push_back(o); n++; } return p; }
 static const char *opn[] = {"new future/promise pair", "coroutine waiter", "callback awaiter", "resolve(value)", "resolve(exception|drop)", "destroy pair", "mutex episode (contend + hand over)",
-                            "suspend point episode (<=3 handles: merge, move, pop, clear)", "step synchronous generator", "blocking wait (ready future | waiter thread)",
+                            "suspend point episode (<=3 handles: merge, move, pop, clear | co_await by a coroutine, its own handle among them or not)", "step synchronous generator", "blocking wait (ready future | waiter thread)",
                             "coroutine blocks in force_wait() while another coroutine is queued on its thread; a second thread resolves",
                             "callback_await_alloc (helper frame in the arena) with a small or a 100-byte callback",
                             "future of a 64-byte value resolved through promise::bind() (or directly), read, destroyed"};
@@ -58,7 +59,7 @@ struct World {
     long gen_sum = 0; int gen_steps = 0;
     unsigned stats_waiters = 0, stats_handover = 0; int thread_waiters = 0;
     int forcers = 0, forcers_done = 0, bystanders = 0;
-    int cba_registered = 0, cba_fired = 0; int big_episodes = 0;
+    int cba_registered = 0, cba_fired = 0; int big_episodes = 0; int sp_awaits = 0, sp_awaits_done = 0;
 };
 
 inline cocls::with_allocator<Arena, cocls::async<void>> co_waiter(Arena &, World *w, cocls::future<int> *f) {
@@ -77,6 +78,16 @@ inline cocls::with_allocator<Arena, cocls::async<void>> forcer(Arena &a, World *
     try { f->force_wait(); } catch (...) {}
     w->forcers_done++;
     co_return;
+}
+// a coroutine that awaits a suspend point carrying three ready coroutines - optionally its own handle (cocls::self) and two others
+inline cocls::with_allocator<Arena, cocls::async<void>> sp_awaiter(Arena &, World *w, std::vector<Parked> *parks, bool with_self) {
+    cocls::suspend_point<void> t;
+    if (with_self) { cocls::suspend_point<void> me = co_await cocls::self(); t << std::move(me); }
+    else t << (*parks)[2].h;
+    t << (*parks)[0].h;
+    t << (*parks)[1].h;
+    co_await std::move(t);
+    w->sp_awaits_done++;
 }
 inline cocls::generator<int> counting_gen() { for (int i = 1;; i++) co_yield i; }
 
@@ -106,7 +117,11 @@ inline void exec(World &w, const Prog &prog, std::vector<Parked> &parks, cocls::
                 own.release();                                                               // hand over: each locker passes it on
                 w.stats_handover += (unsigned)n;
             } break;
-            case 7: {
+            case 7: if ((o.b & 3) >= 2) {
+                // the three ready coroutines are carried by a suspend point that a coroutine co_awaits (with its own handle among them or not)
+                w.sp_awaits++;
+                sp_awaiter(w.arena, &w, &parks, (o.b & 3) == 3).detach();
+            } else {
                 cocls::suspend_point<void> a(parks[0].h);
                 a << parks[1].h;
                 cocls::suspend_point<void> b(std::move(a));
@@ -182,6 +197,7 @@ inline void run(hz::Reader &r) {
         HZ_CHECK(w->cb_fired == w->cb_registered, "%d of %d callback awaiters fired", w->cb_fired, w->cb_registered);
         HZ_CHECK(w->forcers_done == w->forcers && w->bystanders == w->forcers, "%d of %d force_wait coroutines finished, %d queued bystanders ran", w->forcers_done, w->forcers, w->bystanders);
         HZ_CHECK(w->cba_fired == w->cba_registered, "%d of %d callback_await completions ran", w->cba_fired, w->cba_registered);
+        HZ_CHECK(w->sp_awaits_done == w->sp_awaits, "%d of %d coroutines that awaited a suspend point continued", w->sp_awaits_done, w->sp_awaits);
         HZ_CHECK(w->grants == w->lockers, "%d of %d mutex requests granted", w->grants, w->lockers);
         waiters = w->stats_waiters; handover = w->stats_handover;
         for (auto &p : parks) p.h.destroy();
@@ -198,7 +214,7 @@ namespace hz {
 static const Info I = {
     "C20", 1, 121, 100000, true, true,
     "stateful byte-decoded programs (rapidcheck), up to 40 ops over {create future/promise pair, add coroutine waiter (frame in a pre-allocated arena via with_allocator), add callback awaiter, resolve with value / exception / drop, destroy pair, "
-    "mutex episode (owner + 2..4 contending lockers handed over one by one), suspend point episode with <=3 handles (construct, <<, move, merge, pop, clear), step a synchronous generator, blocking wait on a ready future or by a waiter thread, a coroutine blocking in force_wait() with another coroutine queued behind it while a second thread resolves, callback_await_alloc with its helper frame in the arena and a small or 100-byte callback, a future of a 64-byte value resolved through promise::bind()}; "
+    "mutex episode (owner + 2..4 contending lockers handed over one by one), suspend point episode with <=3 handles (construct, <<, move, merge, pop, clear; or co_await by a coroutine on a suspend point carrying three ready coroutines - its own handle through cocls::self among them or not), step a synchronous generator, blocking wait on a ready future or by a waiter thread, a coroutine blocking in force_wait() with another coroutine queued behind it while a second thread resolves, callback_await_alloc with its helper frame in the arena and a small or 100-byte callback, a future of a 64-byte value resolved through promise::bind()}; "
     "the whole program runs inside a measured region of the counting global operator new (thread creation and the node storage of each thread's ready queue - the first deque of handles a thread constructs - are exempt by construction; any other container is counted) and is then executed a second time (metamorphic doubling). "
     "Oracle: operator new count inside the region == 0 after the first and after the second execution; all waiters finished, all lock requests granted. Non-trivial = >=1 waiter and >=1 contended mutex hand-over; distinct = hash(decoded program, executed switch trace).",
     c20::class_names, 4, c20::counter_names, 2};
